@@ -294,4 +294,38 @@ types! {
     "Dual<DualDVec64>" => Dual<DualDVec64, f64>,
     "Dual2<DualSVec64<2>>" => Dual2<DualSVec64<2>, f64>,
     "DualVec<DualDVec64,Dyn>" => DualVec<DualDVec64, f64, Dyn>,
+    // session 2: larger static dimensions, the remaining f32 scalar type, more mixed static/dynamic shapes,
+    // every scalar type as the element of a vector type, vector types inside scalar types inside vector types
+    "HyperHyperDual32" => HyperHyperDual32,
+    "DualSVec64<6>" => DualSVec64<6>,
+    "DualSVec64<8>" => DualSVec64<8>,
+    "DualSVec64<10>" => DualSVec64<10>,
+    "DualSVec32<7>" => DualSVec32<7>,
+    "Dual2SVec64<4>" => Dual2SVec64<4>,
+    "Dual2SVec64<6>" => Dual2SVec64<6>,
+    "Dual2SVec32<5>" => Dual2SVec32<5>,
+    "HyperDualSVec64<4,5>" => HyperDualSVec64<4, 5>,
+    "HyperDualSVec64<6,1>" => HyperDualSVec64<6, 1>,
+    "HyperDualSVec64<1,7>" => HyperDualSVec64<1, 7>,
+    "HyperDualSVec64<5,5>" => HyperDualSVec64<5, 5>,
+    "HyperDualSVec32<3,4>" => HyperDualSVec32<3, 4>,
+    "HyperDualVec64<Const<3>,Dyn>" => HyperDualVec64<Const<3>, Dyn>,
+    "HyperDualDVec32" => HyperDualDVec32,
+    "HyperHyperDual<Dual2_32>" => HyperHyperDual<Dual2_32, f32>,
+    "Dual3<HyperDual64>" => Dual3<HyperDual64, f64>,
+    "DualVec<Dual32,Dyn>" => DualVec<Dual32, f32, Dyn>,
+    "DualVec<Dual3_64,Const<2>>" => DualVec<Dual3_64, f64, Const<2>>,
+    "DualVec<HyperHyperDual64,Dyn>" => DualVec<HyperHyperDual64, f64, Dyn>,
+    "Dual2Vec<HyperDual64,Const<2>>" => Dual2Vec<HyperDual64, f64, Const<2>>,
+    "Dual2Vec<Dual2_32,Dyn>" => Dual2Vec<Dual2_32, f32, Dyn>,
+    "HyperDualVec<Dual2_64,Dyn,Dyn>" => HyperDualVec<Dual2_64, f64, Dyn, Dyn>,
+    "HyperDualVec<Dual3_64,Const<1>,Const<3>>" => HyperDualVec<Dual3_64, f64, Const<1>, Const<3>>,
+    "Dual3<DualSVec64<2>>" => Dual3<DualSVec64<2>, f64>,
+    "HyperDual<DualDVec64>" => HyperDual<DualDVec64, f64>,
+    "HyperHyperDual<HyperDualDVec64>" => HyperHyperDual<HyperDualDVec64, f64>,
+    "Dual2Vec<Dual2DVec64,Dyn>" => Dual2Vec<Dual2DVec64, f64, Dyn>,
+    "HyperDualVec<DualDVec64,Dyn,Const<2>>" => HyperDualVec<DualDVec64, f64, Dyn, Const<2>>,
+    "Dual<DualVec<DualDVec64,Dyn>>" => Dual<DualVec<DualDVec64, f64, Dyn>, f64>,
+    "DualVec<Dual<DualDVec64>,Dyn>" => DualVec<Dual<DualDVec64, f64>, f64, Dyn>,
+    "DualVec<Dual2<DualSVec64<2>>,Const<3>>" => DualVec<Dual2<DualSVec64<2>, f64>, f64, Const<3>>,
 }
